@@ -66,7 +66,7 @@ impl Prop for C03 {
         case_of(&g.scenario())
     }
     fn rule(&self) -> String {
-        "case = seeded history executed on replica A with its commit schedule {every block, every k, random}, clearCaches (block boundary and mid-block) and restarts (with/without commit) inserted, and on replica B that never commits and is never disturbed; reorgs (biased to depth 9-10) and re-submissions of orphaned transactions are executed by both. Oracles: every call result equal on A and B; obs(A)==obs(B) after every commit, after commit+restart and at sampled block boundaries; after clearCaches / restart without commit obs(A)==obs(fresh replay up to the last committed height) and, after the lost calls are fed again, obs(A)==obs(B). distinct = sha256 of op list; non-trivial = a commit was followed by a comparison or uncommitted work was actually lost".into()
+        "case = seeded history executed on replica A with its commit schedule {every block, every k, random}, clearCaches (block boundary and mid-block) and restarts (with/without commit) inserted, and on replica B that never commits and is never disturbed; reorgs (biased to depth 9-10) and re-submissions of orphaned transactions are executed by both. Oracles: every call result equal on A and B; obs(A)==obs(B) after every commit, after commit+restart and at sampled block boundaries; after clearCaches / restart without commit obs(A)==obs(fresh replay up to the last committed height) and, after the lost calls are fed again, obs(A)==obs(B); in half of the losses of two or more blocks the calls of the last lost block are fed first, right above the commit, to A and to the fresh replay alike (equal answers), and dropped again. distinct = sha256 of op list; non-trivial = a commit was followed by a comparison or uncommitted work was actually lost".into()
     }
     fn assumptions(&self) -> Vec<String> {
         vec!["reorgs are executed by both replicas (the never-committing replica then commits only through reorgs)".into()]
@@ -155,6 +155,30 @@ impl Prop for C03 {
                             json!({"op": i, "op_kind": op.kind_name(), "committed": saved.committed, "height_before": saved.height, "mid_block": mid, "diff(A,replay-to-commit)": detail}),
                         ));
                         break 'ops;
+                    }
+                    // "can continue from there": what was lost may come back in another order. The calls of the last lost
+                    // block are fed first (they now build the block right above the commit, lower than where they ran before);
+                    // A and the fresh replay must answer alike; then that detour is dropped again
+                    let last_lost: Vec<Call> = saved.chain.iter().filter(|b| saved.committed.map_or(true, |c| b.height > c)).last().map(|b| b.calls.clone()).unwrap_or_default();
+                    let lost_blocks = saved.chain.iter().filter(|b| saved.committed.map_or(true, |c| b.height > c)).count();
+                    if lost_blocks >= 2 && !last_lost.is_empty() && cmp_rng.chance(1, 2) {
+                        for c in &last_lost {
+                            let ra = a.inst.call(&c.method, c.params.clone());
+                            let rf = fresh.call(&c.method, c.params.clone());
+                            if ra.is_panic() || ra.to_value() != rf.to_value() {
+                                violation = Some(Violation::new(
+                                    "continuation-after-loss-differs-from-continuation-of-last-commit",
+                                    json!({"op": i, "op_kind": op.kind_name(), "committed": saved.committed, "call": c.method, "after_loss": trunc(&ra.to_value()), "fresh_replay_of_last_commit": trunc(&rf.to_value())}),
+                                ));
+                                break 'ops;
+                            }
+                        }
+                        a.stats.bump("probe_lost_work_resubmitted_lower");
+                        let r = a.inst.call("brc20_clearCaches", json!([]));
+                        if !r.is_ok() {
+                            violation = Some(Violation::new("panic-in-clear-or-restart", json!({"op": i, "resp": r.to_value()})));
+                            break 'ops;
+                        }
                     }
                     drop(fresh);
                     // feed the lost calls again: A must be where the undisturbed B is
